@@ -19,11 +19,18 @@
          the same hash from run-of-the-mill indices (e.g. from_u64(module-local function index) and
          from_u64(program-wide function index)) cancel whenever the indices are equal and the label no longer depends
          on either.
+  C06.I  (= C01.L, shared) each loop iteration captures a distinct variable: the script-visible loop variable is a local of
+         the body scope written once per iteration; the slot the loop code itself reads is unnameable, so no closure can
+         capture the running counter.
+  C06.W  upvalue indices are per function: when resolve_upvalue finds the variable as an upvalue of the enclosing function it
+         registers an upvalue of its own (add_upvalue(.., false, function_id)) and returns THAT index; the enclosing
+         function's index is never handed to the inner function (every `Variable::Upvalue(i)` built in resolve_upvalue takes
+         i from add_upvalue, and the branch that saw an Upvalue from the recursive call leaves through its own return).
   C06.U  scope / compile brackets balanced (= C01.S, shared).
 """
 from cao.facts import (AnchorMissing, callee_names, short, op_local, op_place, DefUse, hir_walk, hir_callee, hir_strip, hir_local_id,
                        iter_stmts, rvalue_operands, rvalue_places)
-from cao.rules import Rule, ok, bad, undecided, note
+from cao.rules import Rule, ok, bad, undecided, note, shared
 from cao import mirutil as mu
 from cao import hirutil as hu
 
@@ -786,7 +793,82 @@ def rule_n(F):
     return res
 
 
+def rule_w(F):
+    res = []
+    f = F.fn("compiler::Compiler::resolve_upvalue")
+    inits = hu.let_inits(f)
+
+    def from_add_upvalue(e, depth=0):
+        e = hu.strip_all(e)
+        if e is None or depth > 5:
+            return False
+        if any(y.get("k") == "mcall" and any(n.endswith("Compiler::add_upvalue") for n in hir_callee(y)) for y in hir_walk(e)):
+            return True
+        lid = hir_local_id(e)
+        if lid is not None:
+            return any(from_add_upvalue(i, depth + 1) for i in inits.get(lid, []))
+        return False
+    # 1. constructions of Variable::Upvalue
+    ctors = []
+    for x in hir_walk(f.hir["body"]):
+        if x.get("k") == "call" and any(n.endswith("compiler::Variable::Upvalue") for n in hir_callee(x)) and x["args"]:
+            ctors.append((x, from_add_upvalue(x["args"][0])))
+        if x.get("k") == "mcall" and x["name"] == "map" and x["args"] and \
+                short(hu.strip_all(x["args"][0]).get("path", {}).get("res", {}).get("path", "") if hu.strip_all(x["args"][0]).get("k") == "path" else "").endswith("Variable::Upvalue"):
+            ctors.append((x, from_add_upvalue(x["recv"])))
+    if not ctors:
+        raise AnchorMissing("construction of Variable::Upvalue in resolve_upvalue")
+    key = "C06/W/resolve_upvalue/upvalue-index-comes-from-add_upvalue"
+    badc = [x for x, good in ctors if not good]
+    if badc:
+        res.append(bad("C06.W", key, f.loc(badc[0]["ln"]), "resolve_upvalue builds Variable::Upvalue from an index that add_upvalue did not return"))
+    else:
+        res.append(ok("C06.W", key, f.loc(ctors[0][0]["ln"]), "%d construction(s), each from add_upvalue's result" % len(ctors)))
+    # 2. the recursive result is not passed on when it is an Upvalue
+    rec_locals = set()
+    for lid, exprs in inits.items():
+        for e in exprs:
+            if any(y.get("k") == "mcall" and any(n.endswith("Compiler::resolve_upvalue") for n in hir_callee(y)) for y in hir_walk(e)):
+                rec_locals.add(lid)
+    key2 = "C06/W/resolve_upvalue/outer-index-not-passed-on"
+    tests = []
+    for x in hir_walk(f.hir["body"]):
+        if x.get("k") == "if":
+            c = hir_strip(x["cond"])
+            if c.get("k") == "let" and any(hir_local_id(y) in rec_locals for y in hir_walk(c["init"]) if y.get("k") == "path") and \
+                    "Upvalue" in str(c.get("pat")):
+                tests.append(x)
+    if not rec_locals:
+        res.append(ok("C06.W", key2, f.loc(), "no recursive lookup"))
+    elif not tests:
+        res.append(bad("C06.W", key2, f.loc(),
+                       "resolve_upvalue returns what the lookup in the enclosing function returned without testing for Variable::Upvalue: an "
+                       "upvalue index of the enclosing function is used as an index into the inner function's own upvalue list"))
+    else:
+        for x in tests:
+            then = x["then"]
+            last = None
+            bl = then.get("block") if then.get("k") == "block" else None
+            if bl is not None:
+                last = bl.get("expr") or (bl["stmts"][-1].get("e") if bl["stmts"] and bl["stmts"][-1]["k"] in ("semi", "expr") else None)
+            leaves = last is not None and hir_strip(last).get("k") == "ret"
+            if leaves:
+                res.append(ok("C06.W", key2, f.loc(x["ln"]), "the branch that saw an upvalue of the enclosing function returns its own index"))
+            else:
+                res.append(bad("C06.W", key2, f.loc(x["ln"]),
+                               "after registering its own upvalue the branch falls through and returns the ENCLOSING function's upvalue index: "
+                               "the inner closure's ReadUpvalue/SetUpvalue operand indexes past (or into the wrong slot of) its own upvalue list"))
+    return res
+
+
+def _c01_rule_l(F):
+    import rules.c01 as c01
+    return c01.rule_l(F)
+
+
 RULES = [
+    Rule("C06.W", rule_w, 2, "upvalue indices are per function"),
+    Rule("C06.I", shared(_c01_rule_l, "C01.L", "C06.I"), 7, "loop variables visible to closures are per-iteration locals (shared with C01.L)"),
     Rule("C06.O", rule_o, 3, "value-stack slots addressed from bytecode operands are frame-relative"),
     Rule("C06.L", rule_l, 1, "closure labels are program-unique"),
     Rule("C06.R", rule_r, 3, "upvalues are closed before their slots disappear"),
